@@ -891,11 +891,17 @@ func (vfs *MemFS) Rename(oldpath, newpath string) error {
 	defer vfs.treeMu.Unlock()
 
 	oParent, oChild, oPI, oErr := vfs.searchNode(oldpath, slmLstat)
+	nParent, nChild, nPI, nErr := vfs.searchNode(newpath, slmLstat)
+
 	if oErr != vfs.err.FileExists {
+		// The directories of both paths are resolved before the last element of oldpath is looked up.
+		if oErr == vfs.err.NoSuchFile && oPI.IsLast() && nErr != vfs.err.FileExists && !vfs.isNotExist(nErr) {
+			oErr = nErr
+		}
+
 		return &os.LinkError{Op: op, Old: oldpath, New: newpath, Err: oErr}
 	}
 
-	nParent, nChild, nPI, nErr := vfs.searchNode(newpath, slmLstat)
 	if nErr != vfs.err.FileExists && !vfs.isNotExist(nErr) || vfs.isNotExist(nErr) && !nPI.IsLast() {
 		// newpath can't be resolved or one of its directories is missing.
 		return &os.LinkError{Op: op, Old: oldpath, New: newpath, Err: nErr}
